@@ -1185,6 +1185,31 @@ func everydayTrailerKeys(o *hx.Out) {
 				o.Violate("unary response metadata did not arrive under the keys the handler used", d, bad, "")
 			}
 			checked(o, "everyday_trailer_keys_"+t.name, int(c), bad == "", d)
+			if t.name == "httpgrpc" {
+				// the same reply against the model of the header layout (model/UnaryMeta.v), evaluated in Coq
+				hmd, tmd := map[string][]string{}, map[string][]string{}
+				for i, k := range keys {
+					if strings.HasSuffix(k, "-bin") {
+						continue // values are opaque in that model; the -bin transport is checked elsewhere
+					}
+					hmd[k], tmd[k] = []string{fmt.Sprintf("h%d", i)}, []string{fmt.Sprintf("t%d", i)}
+				}
+				fail, msg := 0, ""
+				if c == 1 {
+					fail, msg = int(codes.Aborted), "with trailers"
+				}
+				strip := func(md metadata.MD) map[string][]string {
+					out := map[string][]string{}
+					for k, v := range md {
+						if !strings.HasSuffix(k, "-bin") {
+							out[k] = v
+						}
+					}
+					return out
+				}
+				o.Case("unary_meta_model", fmt.Sprintf("Checked %s %d (UnaryMeta.agrees %s %s %d %s 409 %s %s %d)", hx.Str("unary_meta_model"), int(c),
+					hx.MD(hmd), hx.MD(tmd), fail, hx.Str(msg), hx.MD(strip(hdr)), hx.MD(strip(tlr)), int(status.Code(err))), d)
+			}
 		}
 		t.stop()
 	}
